@@ -23,5 +23,11 @@ CHECKS = {
   text="Every inventory of <= 2 (3) lines from a 20-line v2 pool and a 9-line v1 pool (names with spaces, $ shorthand, priorities, duplicates, py:module duplicates, malformed lines), both versions, with/without final newline, is loaded by the real loader and compared entry-by-entry with Sphinx's own loader; every delivery of the bytes of 6 (8) files through read() with <= 2 (3) cut points and every uniform chunk size must give the single-read result; to_sphinx/from_sphinx round trip on every loaded inventory.",
   note="Trusted: Sphinx 8.2.3 InventoryFile.loads as reference; '' and '-' display names identified; exotic line separators not generated; read() never returns more than requested.",
  ),
+ "C08": dict(
+  category="model_checking",
+  technique="bounded exhaustive enumeration of (directive class, first line, content, additional options) with every class of the docutils/Sphinx registries as program, executed on parse_directive_text against a reference splitter + PyYAML pairs + the class's own converters; metamorphic colon-vs-dash style comparison",
+  text="Every registered directive class x 4 first lines x 3 additional-option settings x every content of <= 2 (3) lines over a 16-line vocabulary (all classes) and of 3 (4) lines for one representative per declaration signature is split by the real function and compared with a 40-line reference splitter: arguments/MarkupError, body, strict body_offset, converted options, exactly which options are dropped and named in warnings; every colon-style block is rewritten as a --- block and must give the same result with offset + 2.",
+  note="Trusted: the reference splitter written from the module docstring; PyYAML for the pairs inside a block (C07 covers the tokenizer itself); body compared modulo trailing blank lines; '--- x' closers not in the vocabulary; validate_options=False (myst-nb) path not covered.",
+ ),
 }
 NOT_APPLICABLE = {}
